@@ -53,6 +53,11 @@ pub fn accessors_agree<K: Fam>(e: &Enr<K>, s: &Snap, st: &mut Stats) -> Result<b
             return Err(format!("get_raw_rlp({}) differs from iter()", lossy(k)));
         }
     }
+    // the owning iterator yields the same pairs in the same order
+    let owned: Vec<(Vec<u8>, Vec<u8>)> = e.clone().into_iter().map(|(k, v)| (k, v.to_vec())).collect();
+    if owned != s.pairs {
+        return Err("into_iter() yields other pairs than iter()".into());
+    }
     if e.get_raw_rlp(b"\xffabsent").is_some() {
         return Err("get_raw_rlp reports a value for an absent key".into());
     }
